@@ -1,6 +1,6 @@
 """Fan harness cases over processes, collect what the monitors observed, classify
 violations against known_findings.json, write evidence and replay files."""
-import json, os, re, shutil, signal, subprocess, sys, tempfile, time, hashlib
+import json, os, re, shutil, signal, subprocess, sys, tempfile, threading, time, hashlib
 from concurrent.futures import ThreadPoolExecutor
 
 VERIF = os.path.dirname(os.path.dirname(os.path.abspath(__file__)))
@@ -66,18 +66,26 @@ class Ctx:
         self.workroot = tempfile.mkdtemp(prefix="mtblv-%s-" % pid, dir=os.environ.get("VERIF_TMP", "/var/tmp"))
         self.builddir = None
         self.evaluations_key = "cases"
+        self.lock = threading.RLock()
 
     # ---------------------------------------------------------------- results
+    def fan_parallel(self, calls):
+        """run several fan() calls side by side; each element is (args, kwargs)"""
+        with ThreadPoolExecutor(len(calls)) as ex:
+            list(ex.map(lambda c: self.fan(*c[0], **c[1]), calls))
+
     def add_stats(self, d, prefix=""):
+      with self.lock:
         for k, v in d.items():
-            k = prefix + k
-            if k.startswith("max.") or ".max." in k:
-                self.stats[k] = max(self.stats.get(k, 0), v)
-            else:
-                self.stats[k] = self.stats.get(k, 0) + v
+              k = prefix + k
+              if k.startswith("max.") or ".max." in k:
+                  self.stats[k] = max(self.stats.get(k, 0), v)
+              else:
+                  self.stats[k] = self.stats.get(k, 0) + v
 
     def violation(self, sig, msg, replay=None):
-        self.violations.append({"sig": sig, "msg": msg, "replay": replay or {}})
+        with self.lock:
+            self.violations.append({"sig": sig, "msg": msg, "replay": replay or {}})
 
     def workdir(self, tag):
         d = os.path.join(self.workroot, tag)
@@ -183,32 +191,33 @@ class Ctx:
         return (crash_signature(p.returncode, p.stderr), "case %s died on isolated re-run: %s" % (case, _tail(p.stderr)))
 
     def _absorb(self, so, sub, exe, args, prefix):
+      with self.lock:
         for line in (so or "").splitlines():
-            if line.startswith("S "):
-                try:
-                    self.add_stats(json.loads(line[2:]), prefix)
-                except Exception:
-                    pass
-            elif line.startswith("V "):
-                try:
-                    v = json.loads(line[2:])
-                except Exception:
-                    continue
-                self.violation(v["sig"], v["msg"], {"exe": os.path.basename(exe), "sub": sub, "seed": self.seed,
-                                                   "case": v.get("case"), "args": list(args)})
-            elif line.startswith("X "):
-                if len(self.samples) < 6:
-                    try:
-                        self.samples.append(json.loads(line[2:]))
-                    except Exception:
-                        pass
-            elif line.startswith("I "):
-                try:
-                    self.inconclusive.append("%s case %s: %s" % (sub, json.loads(line[2:]).get("case"), json.loads(line[2:]).get("msg")))
-                except Exception:
-                    self.inconclusive.append(line[:200])
-            elif line.startswith("H "):
-                self.hashes.update(line[2:].split())
+              if line.startswith("S "):
+                  try:
+                      self.add_stats(json.loads(line[2:]), prefix)
+                  except Exception:
+                      pass
+              elif line.startswith("V "):
+                  try:
+                      v = json.loads(line[2:])
+                  except Exception:
+                      continue
+                  self.violation(v["sig"], v["msg"], {"exe": os.path.basename(exe), "sub": sub, "seed": self.seed,
+                                                     "case": v.get("case"), "args": list(args)})
+              elif line.startswith("X "):
+                  if len(self.samples) < 6:
+                      try:
+                          self.samples.append(json.loads(line[2:]))
+                      except Exception:
+                          pass
+              elif line.startswith("I "):
+                  try:
+                      self.inconclusive.append("%s case %s: %s" % (sub, json.loads(line[2:]).get("case"), json.loads(line[2:]).get("msg")))
+                  except Exception:
+                      self.inconclusive.append(line[:200])
+              elif line.startswith("H "):
+                  self.hashes.update(line[2:].split())
 
     # ---------------------------------------------------------------- finish
     def finish(self, rule, evaluations=None, distinct=None, floors=None, exhaustive=None, extra=None, explanation=None):
